@@ -74,6 +74,17 @@ fn band<T: Sc>(t: &mut Toks, cx: &mut Ctx, to_q: Option<fn(&T) -> Option<Q>>) ->
     let owned: Vec<Result<Banded<T>, &'static str>> = vec![guarded(|| -(a.clone())), guarded(|| a.clone() + a2.clone()), guarded(|| a.clone() - a2.clone()), guarded(|| a.clone() * s), guarded(|| a.clone() / s)];
     for k in 0..5 { match (&ar[k], &owned[k]) { (Ok(p), Ok(q)) => cx.check(p == q || !T::is_exact(), "owned and borrowed operator forms differ"), (Err(_), Err(_)) => {}, _ => cx.fail("owned and borrowed operator forms differ") } }
     for z in &ar { push_res(&mut out, z.as_ref().map(|b| wr_band(b)).map_err(|c| *c), cx); }
+    // more entry points: indexed write, fill, resize
+    let extra: Vec<Result<Banded<T>, &'static str>> = vec![
+        guarded(|| { let mut z = a.clone(); z[(i, j)] = x; z }),
+        guarded(|| { let mut z = a.clone(); z.fill(x); z }),
+        guarded(|| { let mut z = a.clone(); z.resize(n + (i % 2), (m1 + j) % (n + 1), m2); z })];
+    for z in &extra { push_res(&mut out, z.as_ref().map(|b| wr_band(b)).map_err(|c| *c), cx); }
+    if i < n && j < n { match &extra[0] { Ok(z) => { let inb = j <= i + m2 && i <= j + m1; cx.check(inb, "indexed write outside the band succeeded");
+                if inb { cx.check((0..n).all(|r| (0..n).all(|c| !(c <= r + m2 && r <= c + m1) || z[(r, c)].same(&(if r == i && c == j { x } else { d[r][c] })))), "indexed write changed another in-band entry"); } }
+            Err(_) => cx.check(!(j <= i + m2 && i <= j + m1), "in-band indexed write rejected") } }
+    if let Ok(z) = &extra[1] { cx.check((0..n).all(|r| (0..n).all(|c| !(c <= r + m2 && r <= c + m1) || z[(r, c)].same(&x))), "fill"); }
+    if let Ok(z) = &extra[2] { cx.check(z.size() == n + (i % 2) && z.size_below() == (m1 + j) % (n + 1) && z.size_above() == m2 && z.compact().rows() == z.size() && z.compact().cols() == z.size_below() + z.size_above() + 1, "resize: shape"); }
     cx.check(same_mat(a.compact(), snap.compact()), "a by-reference call mutated the matrix");
     let d2 = dense(n, m1, m2, &c2);
     let f: [&dyn Fn(T, T) -> T; 11] = [&|p, _| -p, &|p, q| p + q, &|p, q| p - q, &|p, _| p * s, &|p, _| p / s, &|p, q| p + q, &|p, q| p - q, &|p, _| p * s, &|p, _| p / s, &|p, _| p + s, &|p, _| p - s];
